@@ -8,8 +8,10 @@
       x/skyway/types/batch.go         GetCheckpoint (what the checkpoint covers)
       x/evm/keeper/keeper.go          GetEthAddressByValidator (first account registered for the chain)
 
-    The orchestrator of a confirmation is assumed to belong to a bonded or unbonding validator (what
-    confirmHandlerCommon checks first); the chain's compass id is constant while a batch is open.
+    The staking status of the orchestrator's validator (none / unbonded / unbonding / bonded) is part of the
+    state ([BSetStatus] = whatever the staking module does to it); confirmHandlerCommon's gate is modelled.
+    The chain's compass id is part of [b_body] and constant while a batch is open (see [redeploy] in
+    Skyway/ConfirmsRedeploy.v for what happens when it is not).
     [verify : cbytes -> Sig -> Z -> bool] (types.ValidateEthereumSignature: ecrecover compared with the
     registered address) is a Section variable about which nothing is assumed.  Definitions only. *)
 From Coq Require Import List ZArith Bool.
@@ -46,15 +48,35 @@ Record cstate := {
   cs_batches : list batch;
   cs_confirms : list confirm;
   cs_last : Z;                        (* KeyLastOutgoingBatchID *)
-  cs_reg : list (Z * list acct)       (* valset: validator -> accounts *)
+  cs_reg : list (Z * list acct);      (* valset: validator -> accounts *)
+  cs_status : list (Z * Z)            (* staking: validator -> status (latest first); absent = no validator record *)
 }.
 
-Definition cinit : cstate := {| cs_batches := []; cs_confirms := []; cs_last := 0; cs_reg := [] |}.
+Definition cinit : cstate := {| cs_batches := []; cs_confirms := []; cs_last := 0; cs_reg := []; cs_status := [] |}.
 
-Inductive cres := COk | CNoBatch | CNoKey | CWrongSigner | CBadSig | CDupVal | CDupKey | CAlreadySet | CCollision.
+Inductive cres := COk | CNoBatch | CNoKey | CWrongSigner | CBadSig | CDupVal | CDupKey | CAlreadySet | CCollision
+                | CNotValidator | CUnbonded | CNotBonded.
+
+(** staking status codes: 0 = the orchestrator is no validator (GetValidator fails), 1 = unbonded,
+    2 = unbonding, 3 = bonded *)
+Definition st_none : Z := 0.
+Definition st_unbonded : Z := 1.
+Definition st_unbonding : Z := 2.
+Definition st_bonded : Z := 3.
+
+Fixpoint status_of (l : list (Z * Z)) (v : Z) : Z :=
+  match l with
+  | [] => st_none
+  | (w, st) :: r => if w =? v then st else status_of r v
+  end.
+
+(** confirmHandlerCommon's gate ([Gen.C06.confirm_requires_bonded_or_unbonding]: the `!IsBonded && !IsUnbonding` return). *)
+Definition may_confirm (st : Z) : bool :=
+  if Gen.C06.confirm_requires_bonded_or_unbonding then (st =? st_unbonding) || (st =? st_bonded) else true.
 
 Inductive cop :=
 | BRegister (v : Z) (accts : list acct)
+| BSetStatus (v st : Z)                   (* staking: bonded / unbonding / unbonded / record removed *)
 | BBuild (contract chain body timeout relayer : Z)
 | BConfirm (v nonce contract signer : Z) (sg : Sig)
 | BUpdateEstimate (nonce contract est : Z)
@@ -80,6 +102,18 @@ Fixpoint find_batch (l : list batch) (contract nonce : Z) : option batch :=
 Definition of_batch (nonce contract : Z) (c : confirm) : bool :=
   (cf_nonce c =? nonce) && (cf_contract c =? contract).
 
+(** DeleteBatchConfirms, stated over ALL stored confirmations: every confirmation of the batch goes.  The code lists
+    them with GetBatchConfirmByNonceAndTokenContract -> IterateBatchConfirmByNonceAndTokenContract and deletes each;
+    [Gen.C06.delete_confirms_reads_all] is the translator's finding that nothing in those readers (a limit, a break, an
+    early return, a callback that asks to stop) can end the listing early.  If it is false the model does not claim
+    which confirmations survive: none is deleted, and the theorems that need the deletion stop checking. *)
+Definition delete_confirms (nonce contract : Z) (l : list confirm) : list confirm :=
+  if Gen.C06.delete_confirms_reads_all then filter (fun c => negb (of_batch nonce contract c)) l else l.
+
+(** ConfirmBatch's one-confirmation-per-eth-key check reads the same listing. *)
+Definition key_confirmed (nonce contract a : Z) (l : list confirm) : bool :=
+  if Gen.C06.dup_checks_read_all then existsb (fun c => of_batch nonce contract c && (cf_signer c =? a)) l else false.
+
 Definition with_est (b : batch) (e : Z) : batch :=
   {| b_nonce := b_nonce b; b_contract := b_contract b; b_chain := b_chain b; b_body := b_body b;
      b_timeout := b_timeout b; b_relayer := b_relayer b; b_est := e |}.
@@ -87,30 +121,38 @@ Definition with_est (b : batch) (e : Z) : batch :=
 Definition cstep (s : cstate) (o : cop) : cstate * cres :=
   match o with
   | BRegister v accts =>
-      if collides (cs_reg s) v accts then (s, CCollision)
+      (* valset.CanAcceptValidator: only a bonded validator may (re-)register external accounts *)
+      if negb (status_of (cs_status s) v =? st_bonded) then (s, CNotBonded)
+      else if collides (cs_reg s) v accts then (s, CCollision)
       else ({| cs_batches := cs_batches s; cs_confirms := cs_confirms s; cs_last := cs_last s;
-               cs_reg := set_reg (cs_reg s) v accts |}, COk)
+               cs_reg := set_reg (cs_reg s) v accts; cs_status := cs_status s |}, COk)
+  | BSetStatus v st =>
+      ({| cs_batches := cs_batches s; cs_confirms := cs_confirms s; cs_last := cs_last s;
+          cs_reg := cs_reg s; cs_status := (v, st) :: cs_status s |}, COk)
   | BBuild contract chain body timeout relayer =>
       let n := cs_last s + 1 in
       ({| cs_batches := cs_batches s ++
             [{| b_nonce := n; b_contract := contract; b_chain := chain; b_body := body;
                 b_timeout := timeout; b_relayer := relayer; b_est := 0 |}];
-          cs_confirms := cs_confirms s; cs_last := n; cs_reg := cs_reg s |}, COk)
+          cs_confirms := cs_confirms s; cs_last := n; cs_reg := cs_reg s; cs_status := cs_status s |}, COk)
   | BConfirm v nonce contract signer sg =>
       match find_batch (cs_batches s) contract nonce with
       | None => (s, CNoBatch)
       | Some b =>
+        if status_of (cs_status s) v =? st_none then (s, CNotValidator)
+        else if negb (may_confirm (status_of (cs_status s) v)) then (s, CUnbonded)
+        else
         match eth_address (cs_reg s) v (b_chain b) with
         | None => (s, CNoKey)
         | Some a =>
           if negb (a =? signer) then (s, CWrongSigner)
           else if negb (verify (checkpoint b) sg a) then (s, CBadSig)
           else if existsb (fun c => of_batch nonce contract c && (cf_val c =? v)) (cs_confirms s) then (s, CDupVal)
-          else if existsb (fun c => of_batch nonce contract c && (cf_signer c =? a)) (cs_confirms s) then (s, CDupKey)
+          else if key_confirmed nonce contract a (cs_confirms s) then (s, CDupKey)
           else ({| cs_batches := cs_batches s;
                    cs_confirms := cs_confirms s ++
                      [{| cf_nonce := nonce; cf_contract := contract; cf_val := v; cf_signer := a; cf_sig := sg |}];
-                   cs_last := cs_last s; cs_reg := cs_reg s |}, COk)
+                   cs_last := cs_last s; cs_reg := cs_reg s; cs_status := cs_status s |}, COk)
         end
       end
   | BUpdateEstimate nonce contract e =>
@@ -120,17 +162,19 @@ Definition cstep (s : cstate) (o : cop) : cstate * cres :=
         if 0 <? b_est b then (s, CAlreadySet)
         else ({| cs_batches := map (fun x => if b_nonce x =? nonce then with_est x e else x) (cs_batches s);
                  cs_confirms := if Gen.C06.update_estimate_deletes_confirms
-                                then filter (fun c => negb (of_batch nonce contract c)) (cs_confirms s)
+                                then delete_confirms nonce contract (cs_confirms s)
                                 else cs_confirms s;
-                 cs_last := cs_last s; cs_reg := cs_reg s |}, COk)
+                 cs_last := cs_last s; cs_reg := cs_reg s; cs_status := cs_status s |}, COk)
       end
   | BRemove nonce contract =>
       match find_batch (cs_batches s) contract nonce with
       | None => (s, CNoBatch)
       | Some _ =>
         ({| cs_batches := filter (fun x => negb (b_nonce x =? nonce)) (cs_batches s);
-            cs_confirms := filter (fun c => negb (of_batch nonce contract c)) (cs_confirms s);
-            cs_last := cs_last s; cs_reg := cs_reg s |}, COk)
+            cs_confirms := if Gen.C06.cancel_deletes_confirms && Gen.C06.executed_deletes_confirms
+                           then delete_confirms nonce contract (cs_confirms s)
+                           else cs_confirms s;
+            cs_last := cs_last s; cs_reg := cs_reg s; cs_status := cs_status s |}, COk)
       end
   end.
 
@@ -148,6 +192,10 @@ Arguments cs_batches {Sig} _.
 Arguments cs_confirms {Sig} _.
 Arguments cs_last {Sig} _.
 Arguments cs_reg {Sig} _.
+Arguments cs_status {Sig} _.
+Arguments BSetStatus {Sig} _ _.
+Arguments delete_confirms {Sig} _ _ _.
+Arguments key_confirmed {Sig} _ _ _ _.
 Arguments cinit {Sig}.
 Arguments BRegister {Sig} _ _.
 Arguments BBuild {Sig} _ _ _ _ _.
